@@ -232,6 +232,11 @@ class NdArray:
         return self.shape[0]
 
     def __getitem__(self, i):
+        if isinstance(i, slice):
+            if self.ndim == 0:
+                raise IndexError("0-d array")
+            d = self.data[i]
+            return NdArray(d, (len(d),) + self.shape[1:], self.dtype)
         return list(self)[i]
 
     def __bool__(self):
@@ -279,6 +284,33 @@ class NdArray:
         return self._elementwise(o, operator.ne)
 
     __hash__ = None
+
+    def _arith(self, o, op):
+        if isinstance(o, (NdArray, list, tuple, str)) or self.dtype in (
+                "str",):
+            raise AnalysisError("model: array arithmetic beyond "
+                                "array-with-scalar")
+
+        def rec(d, depth):
+            if depth == len(self.shape):
+                return op(d, o)
+            return [rec(x, depth + 1) for x in d]
+        flt = self.dtype == "float" or isinstance(o, float)
+        return NdArray(rec(self.data, 0), self.shape,
+                       "float" if flt else "int")
+
+    def __add__(self, o):
+        return self._arith(o, operator.add)
+
+    __radd__ = __add__
+
+    def __sub__(self, o):
+        return self._arith(o, operator.sub)
+
+    def __mul__(self, o):
+        return self._arith(o, operator.mul)
+
+    __rmul__ = __mul__
 
     def tolist(self):
         return self.data
@@ -535,6 +567,20 @@ class Interp:
             raise ModelRaise(name, "explicit raise")
         elif isinstance(s, ast.Pass):
             pass
+        elif isinstance(s, ast.With):
+            # model objects only: `__enter__` (if modelled) gives the bound
+            # value, the exit handler is not modelled (no exceptions are
+            # swallowed by the stand-ins)
+            for it in s.items:
+                v = self.ev(it.context_expr, *env)
+                if isinstance(v, Namespace) and "__enter__" in v.__dict__:
+                    v = v.__dict__["__enter__"]()
+                elif not isinstance(v, Namespace):
+                    raise AnalysisError(
+                        f"model: with-statement on `{txt(it.context_expr)}`")
+                if it.optional_vars is not None:
+                    self.assign(it.optional_vars, v, *env)
+            self.block(s.body, *env)
         elif isinstance(s, ast.Continue):
             raise _Continue()
         elif isinstance(s, ast.Break):
